@@ -618,6 +618,26 @@ func c02Hex(b []byte) string {
 // ---------------------------------------------------------------------------
 // oracles on a decoded transaction
 
+// c02Ctx names the running test for known-finding gating (tests run one at a time).
+var c02Ctx struct {
+	test string
+	st   *vs.S
+}
+
+// c02SkipKnown reports whether the trigger class is listed as a known finding for
+// the running test ($VERIF_KNOWN_CLASSES, from known_findings.json); if so the
+// caller skips exactly that assertion and one exclusion is counted. If it is not
+// listed the assertion stays in force.
+func c02SkipKnown(class string) bool {
+	if !vs.Known(c02Ctx.test, class) {
+		return false
+	}
+	if c02Ctx.st != nil {
+		c02Ctx.st.Excluded()
+	}
+	return true
+}
+
 // c02NetworkForm returns the encoding of the transaction as an RLP list element
 // (legacy: the list itself; typed: the envelope wrapped as an RLP string).
 func c02NetworkForm(env []byte) []byte {
@@ -690,9 +710,15 @@ func c02CheckAccepted(t c02Fataler, tx *Transaction, b []byte, via string) *c02T
 		if stripped.Hash() != want {
 			t.Fatalf("%s: WithoutBlobTxSidecar().Hash() = %x, with sidecar %x", via, stripped.Hash(), want)
 		}
-		if len(x.sidecar.blobs) > 0 {
+		// known finding "sidecar-zero-blobs": the size bookkeeping of WithoutBlobTxSidecar
+		// is off for a sidecar without any blob
+		if len(x.sidecar.blobs) > 0 || !c02SkipKnown("sidecar-zero-blobs") {
 			if sz := stripped.Size(); sz != uint64(len(sb)) {
-				t.Fatalf("%s: WithoutBlobTxSidecar().Size() = %d, its encoding has %d bytes (full tx %d bytes)", via, sz, len(sb), len(b))
+				cls := ""
+				if len(x.sidecar.blobs) == 0 {
+					cls = " [class sidecar-zero-blobs]"
+				}
+				t.Fatalf("%s%s: WithoutBlobTxSidecar().Size() = %d, its encoding has %d bytes (full tx %d bytes)", via, cls, sz, len(sb), len(b))
 			}
 		}
 		if tx.BlobTxSidecar() == nil || stripped.BlobTxSidecar() != nil {
@@ -798,17 +824,22 @@ func c02PropConstructed(st *vs.S) func(rt *rapid.T) {
 		want := x.encoding(true)
 		wantHash := x.hash()
 		zeroBlobSidecar := x.sidecar != nil && len(x.sidecar.blobs) == 0
+		// known finding "sidecar-zero-blobs": cache-miss Size() of a blob tx whose sidecar has no blobs
+		zeroSkip := zeroBlobSidecar && c02SkipKnown("sidecar-zero-blobs")
 
 		// --- freshly constructed object: Size() on the cache-miss path first
 		tx := NewTx(x.txdata())
-		if !zeroBlobSidecar {
+		if !zeroSkip {
 			if sz := tx.Size(); sz != uint64(len(want)) {
-				rt.Fatalf("fresh %s tx: Size() = %d, encoding has %d bytes (%s)", x.typeName(), sz, len(want), c02Hex(want))
+				cls := ""
+				if zeroBlobSidecar {
+					cls = " [class sidecar-zero-blobs]"
+				}
+				rt.Fatalf("fresh %s tx%s: Size() = %d, encoding has %d bytes (%s)", x.typeName(), cls, sz, len(want), c02Hex(want))
 			}
 		} else if st != nil {
-			// DESIGN C02 domain note: a sidecar without blobs is not a real sidecar; observe only
 			if sz := NewTx(x.txdata()).Size(); sz != uint64(len(want)) {
-				st.Note("observation (outside the checked domain): freshly constructed blob tx with an empty sidecar reports Size()=%d, encoding has %d bytes", sz, len(want))
+				st.Note("known finding sidecar-zero-blobs: freshly constructed blob tx with an empty sidecar reports Size()=%d, encoding has %d bytes", sz, len(want))
 			}
 		}
 		got, err := tx.MarshalBinary()
@@ -826,7 +857,7 @@ func c02PropConstructed(st *vs.S) func(rt *rapid.T) {
 		if h := tx2.Hash(); h != wantHash {
 			rt.Fatalf("%s tx: Hash() on fresh object = %x want %x", x.typeName(), h, wantHash)
 		}
-		if !zeroBlobSidecar && tx2.Size() != uint64(len(want)) {
+		if !zeroSkip && tx2.Size() != uint64(len(want)) {
 			rt.Fatalf("%s tx: Size() after Hash() = %d want %d", x.typeName(), tx2.Size(), len(want))
 		}
 		c02CheckAccessors(rt, tx, x)
@@ -844,10 +875,10 @@ func c02PropConstructed(st *vs.S) func(rt *rapid.T) {
 			rt.Fatalf("UnmarshalBinary: %v", err)
 		}
 		c02CheckAccessors(rt, dtx, x)
-		if zeroBlobSidecar && st != nil {
+		if zeroSkip && st != nil {
 			stripped := dtx.WithoutBlobTxSidecar()
 			if sb, _ := stripped.MarshalBinary(); stripped.Size() != uint64(len(sb)) {
-				st.Note("observation (outside the checked domain): blob tx decoded from bytes with an empty sidecar: WithoutBlobTxSidecar().Size()=%d, its encoding has %d bytes", stripped.Size(), len(sb))
+				st.Note("known finding sidecar-zero-blobs: blob tx decoded from bytes with an empty sidecar: WithoutBlobTxSidecar().Size()=%d, its encoding has %d bytes", stripped.Size(), len(sb))
 			}
 		}
 		// --- network form
@@ -877,7 +908,7 @@ func c02PropConstructed(st *vs.S) func(rt *rapid.T) {
 			if !bytes.Equal(sb, x.encoding(false)) {
 				rt.Fatalf("WithoutBlobTxSidecar().MarshalBinary differs from the reference")
 			}
-			if !zeroBlobSidecar && stripped.Size() != uint64(len(sb)) {
+			if !zeroSkip && stripped.Size() != uint64(len(sb)) {
 				rt.Fatalf("constructed: WithoutBlobTxSidecar().Size() = %d, encoding %d bytes", stripped.Size(), len(sb))
 			}
 			// stripping a fresh object whose size was never computed
@@ -888,7 +919,7 @@ func c02PropConstructed(st *vs.S) func(rt *rapid.T) {
 			// adding the sidecar back gives the full encoding again
 			back := stripped.WithBlobTxSidecar(tx.BlobTxSidecar())
 			bb, _ := back.MarshalBinary()
-			if !bytes.Equal(bb, want) || back.Hash() != wantHash || (!zeroBlobSidecar && back.Size() != uint64(len(want))) {
+			if !bytes.Equal(bb, want) || back.Hash() != wantHash || (!zeroSkip && back.Size() != uint64(len(want))) {
 				rt.Fatalf("WithBlobTxSidecar(WithoutBlobTxSidecar(tx)) differs: size %d want %d", back.Size(), len(want))
 			}
 		}
@@ -896,19 +927,15 @@ func c02PropConstructed(st *vs.S) func(rt *rapid.T) {
 		// (hexutil.Big, the JSON integer type, is documented to reject values over 256 bits)
 		jsonOK := (sigClass == "valid" || sigClass == "zero") && x.fits256() &&
 			(x.typ != BlobTxType || len(x.blobHashes) > 0) && (x.typ != SetCodeTxType || len(x.auths) > 0)
-		if jsonOK && x.hasNilKeys() {
-			// Representation quirk outside the asserted domain: a tuple built locally with a
-			// nil StorageKeys slice marshals to "storageKeys":null, which the JSON decoder
-			// (gencodec "required") rejects; decoded transactions never carry nil keys and
-			// the same transaction with an empty slice round-trips. Observed, not asserted.
-			jsonOK = false
+		nilKeysSkipped := false
+		if jsonOK && x.hasNilKeys() && c02SkipKnown("json-nil-storagekeys") {
+			// known finding "json-nil-storagekeys": a tuple built locally with a nil
+			// StorageKeys slice marshals to "storageKeys":null, which UnmarshalJSON rejects
+			jsonOK, nilKeysSkipped = false, true
 			if st != nil {
 				if js, err := tx.MarshalJSON(); err == nil && json.Unmarshal(js, new(Transaction)) != nil {
-					st.Note("observation (outside the checked domain): tx built with AccessTuple{StorageKeys: nil} marshals to JSON that UnmarshalJSON rejects (\"storageKeys\":null)")
+					st.Note("known finding json-nil-storagekeys: tx built with AccessTuple{StorageKeys: nil} marshals to JSON that UnmarshalJSON rejects (\"storageKeys\":null)")
 				}
-			}
-			if c != nil {
-				c.Class("json-nil-storagekeys(observed-only)")
 			}
 		}
 		if jsonOK {
@@ -918,7 +945,11 @@ func c02PropConstructed(st *vs.S) func(rt *rapid.T) {
 			}
 			jtx := new(Transaction)
 			if err := json.Unmarshal(js, jtx); err != nil {
-				rt.Fatalf("UnmarshalJSON(MarshalJSON(%s tx)) failed: %v\n json %s", x.typeName(), err, c02Trunc(string(js)))
+				cls := ""
+				if x.hasNilKeys() {
+					cls = " [class json-nil-storagekeys]"
+				}
+				rt.Fatalf("UnmarshalJSON(MarshalJSON(%s tx)) failed%s: %v\n json %s", x.typeName(), cls, err, c02Trunc(string(js)))
 			}
 			if jtx.Hash() != wantHash {
 				rt.Fatalf("JSON round trip changes the hash of a %s tx: %x -> %x", x.typeName(), wantHash, jtx.Hash())
@@ -948,8 +979,13 @@ func c02PropConstructed(st *vs.S) func(rt *rapid.T) {
 			if jsonOK {
 				c.Class("json-roundtrip")
 			}
-			if zeroBlobSidecar {
-				c.Class("sidecar-zero-blobs(observed-only)")
+			if zeroSkip {
+				c.Class("excluded-known:sidecar-zero-blobs")
+			} else if zeroBlobSidecar {
+				c.Class("sidecar-zero-blobs")
+			}
+			if nilKeysSkipped {
+				c.Class("excluded-known:json-nil-storagekeys")
 			}
 			c.NonTrivial(nt, string(c02Keccak(want).Bytes()))
 			c.Sample(nt, func() any {
@@ -968,6 +1004,7 @@ func c02Trunc(s string) string {
 
 func TestVerifC02Constructed(t *testing.T) {
 	st := vs.New("C02", t)
+	c02Ctx.test, c02Ctx.st = "TestVerifC02Constructed", st
 	vs.Check(t, 1, c02PropConstructed(st))
 }
 
@@ -1225,6 +1262,7 @@ func c02GenArbItem(rt *rapid.T, depth int) refrlp.Item {
 
 func TestVerifC02Bytes(t *testing.T) {
 	st := vs.New("C02", t)
+	c02Ctx.test, c02Ctx.st = "TestVerifC02Bytes", st
 	vs.Check(t, 2.5, c02PropBytes(st))
 }
 
@@ -1233,6 +1271,7 @@ func TestVerifC02Bytes(t *testing.T) {
 
 // FuzzVerifC02Unmarshal: raw bytes into UnmarshalBinary and the list-element decoder.
 func FuzzVerifC02Unmarshal(f *testing.F) {
+	c02Ctx.test, c02Ctx.st = "TestVerifC02Bytes", nil // same known-finding classes as the rapid test
 	for _, s := range c02FuzzSeeds() {
 		f.Add(s)
 	}
@@ -1248,6 +1287,7 @@ func FuzzVerifC02Unmarshal(f *testing.F) {
 
 // FuzzVerifC02Constructed drives the constructive property from fuzzer bytes.
 func FuzzVerifC02Constructed(f *testing.F) {
+	c02Ctx.test, c02Ctx.st = "TestVerifC02Constructed", nil
 	f.Fuzz(rapid.MakeFuzz(c02PropConstructed(nil)))
 }
 
